@@ -49,6 +49,9 @@ def make_op(spec: dict):
     if kind == "random":
         cc, seed = spec["country"], spec["seed"]
         return lambda: lib.outcome(lambda: str(lib.IBAN.random(cc, random=random.Random(seed))))
+    if kind == "iban_bank_name":
+        text = spec["text"]
+        return lambda: lib.outcome(lambda: lib.IBAN(text).bank_name)
     if kind == "iban_bic":
         text = spec["text"]
         return lambda: lib.outcome(lambda: str(lib.IBAN(text).bic))
@@ -169,12 +172,62 @@ def build_harnesses(tier: str):
         "nat-fr": {"op": "iban", "text": "FR1420041010050500013M02606", "nat": True},
         "nat-it": {"op": "iban", "text": "IT60X0542811101000000123456", "nat": True},
     }
+    ctl.update({
+        "parse-gb": {"op": "iban", "text": "GB29NWBK60161331926819"},
+        "parse-fr": {"op": "iban", "text": "FR1420041010050500013M02606"},
+        "bic2": {"op": "bic", "text": "MARKDEF1100"},
+        "bic-bad": {"op": "bic", "text": "GENOXXM1GLS"},
+        "lookup2": {"op": "from_bank_code", "country": "FR", "code": "30004"},
+        "candidates-de": {"op": "candidates", "country": "DE", "code": "43060967"},
+        "generate-gb": {"op": "generate", "country": "GB", "bank": "NWBK", "account": "31926819",
+                        "branch": "601613"},
+        "generate-es": {"op": "generate", "country": "ES", "bank": "2100", "account": "0200051332",
+                        "branch": "0418"},
+        "generate-fr": {"op": "generate", "country": "FR", "bank": "20041", "account": "0500013M026",
+                        "branch": "01005"},
+        "random2": {"op": "random", "country": "DE", "seed": 6},
+        "random-es": {"op": "random", "country": "ES", "seed": 2},
+        "nat-es": {"op": "iban", "text": "ES9121000418450200051332", "nat": True},
+        "nat-es-bad": {"op": "iban", "text": "ES7921000418460200051332", "nat": True},
+        "nat-pl": {"op": "iban", "text": "PL61109010140000071219812874", "nat": True},
+        "nat-fi": {"op": "iban", "text": "FI2112345600000785", "nat": True},
+        "nat-ee": {"op": "iban", "text": "EE382200221020145685", "nat": True},
+        "nat-be": {"op": "iban", "text": "BE68539007547034", "nat": True},
+        "nat-be-bad": {"op": "iban", "text": "BE41539007547035", "nat": True},
+        "nat-pt": {"op": "iban", "text": "PT50000201231234567890154", "nat": True},
+        "nat-si": {"op": "iban", "text": "SI56263300012039086", "nat": True},
+        "nat-no": {"op": "iban", "text": "NO9386011117947", "nat": True},
+        "nat-cz": {"op": "iban", "text": "CZ6508000000192000145399", "nat": True},
+        "nat-is": {"op": "iban", "text": "IS140159260076545510730339", "nat": True},
+        "iban-bic2": {"op": "iban_bic", "text": "FR1420041010050500013M02606"},
+    })
     pairs = [("parse", "parse-bad"), ("parse", "bic"), ("lookup", "lookup-miss"), ("lookup", "candidates"),
              ("generate", "generate-be"), ("generate", "generate-bad"), ("random", "random"),
              ("random", "random-no"), ("iban-bic", "lookup"), ("nat-fr", "nat-it"), ("generate-be", "nat-fr"),
-             ("random", "generate")]
+             ("random", "generate"),
+             # same code path, different data (a shared scratch buffer would be exchanged)
+             ("parse", "parse-gb"), ("parse-gb", "parse-fr"), ("bic", "bic2"), ("bic", "bic-bad"),
+             ("lookup", "lookup2"), ("candidates", "candidates-de"), ("generate", "generate-gb"),
+             ("generate-es", "generate-fr"), ("generate-be", "generate-es"), ("random", "random2"),
+             ("random", "random-es"), ("nat-es", "nat-pl"), ("nat-es", "nat-es-bad"), ("nat-fi", "nat-ee"),
+             ("nat-be", "nat-be-bad"), ("nat-pt", "nat-si"), ("nat-be", "nat-pt"), ("nat-no", "nat-cz"),
+             ("nat-is", "nat-cz"), ("nat-fr", "generate-fr"), ("iban-bic", "iban-bic2"),
+             ("nat-it", "nat-es")]
+    ctl.update({
+        "lookup-37040044": {"op": "from_bank_code", "country": "DE", "code": "37040044"},
+        "candidates-37040044": {"op": "candidates", "country": "DE", "code": "37040044"},
+        "nat-bad-37040044": {"op": "iban", "text": iban_for("37040044", "0532013001"), "nat": True},
+        "iban-bank-name": {"op": "iban_bank_name", "text": valid},
+    })
+    # two calls that touch the SAME registry entry (same country and bank code)
+    pairs += [("lookup", "lookup"), ("candidates", "candidates"), ("lookup-37040044", "iban-bic"),
+              ("candidates-37040044", "iban-bank-name"), ("lookup-37040044", "nat-bad-37040044"),
+              ("iban-bic", "iban-bic"), ("candidates-37040044", "lookup-37040044")]
+    deep = {("parse", "parse-gb"), ("generate", "generate-gb"), ("nat-es", "nat-es-bad"),
+            ("nat-be", "nat-be-bad"), ("generate-es", "generate-fr")}
     for a, b in pairs:
-        hs.append((f"ctl:{a}x{b}", [ctl[a], ctl[b]], 1, False))
+        p = 2 if ((a, b) in deep and not quick) else 1
+        hs.append((f"ctl:{a}x{b}", [ctl[a], ctl[b]], p, False))
     if not quick:
         hs.append(("ctl:triple", [ctl["random"], ctl["lookup"], ctl["generate-be"]], 1, False))
     return hs
